@@ -1,48 +1,240 @@
-// C09 -- Hashtable behaves as an insertion-ordered map (probe: symbolic keys in a small domain, symbolic hash function)
+// C09 -- Hashtable behaves as an ordered map, and live iterators survive any mutation.
+// The real util/Hashtable.h + util/HashtableIterator.h templates are instantiated for a harness key type whose hash function is chosen by the solver
+// (so every collision pattern of the keys in play is covered), and executed symbolically:
+//    prefix: n Puts of pairwise distinct symbolic keys (insertion order = model order), optionally into a table shrunk to P3 slots first, so that
+//            the operation under test crosses a growth/reallocation; then (optionally) a live iterator advanced a symbolic number of steps;
+//    then ONE operation under test (kind = P1) with symbolic arguments; then the rest of the live iterator's traversal; then a full comparison
+//    with the reference model (an array-based ordered map written from the documentation in Hashtable.h).
+// Shape (ir2c_param): 0 = n, 1 = operation, 2 = iterator (0 none, 1 forward, 2 backward), 3 = initial table size (0 = default), 4 = table class
+// (0 Hashtable, 1 OrderedKeysHashtable, 2 OrderedValuesHashtable), 5 = operation-specific constant.
 #include "util/Hashtable.h"
 #include "vsym.h"
 using namespace muscle;
-#define MAXK 6
+
+#define MAXK 6       // key domain
+#define MAXN 8       // model capacity
 static uint32 g_hash[MAXK];
 struct Key {
    Key() : k(0) {}
    Key(uint32 kk) : k(kk) {}
    bool operator==(const Key & r) const {return k == r.k;}
    bool operator!=(const Key & r) const {return k != r.k;}
+   bool operator< (const Key & r) const {return k <  r.k;}
+   bool operator> (const Key & r) const {return k >  r.k;}
    uint32 HashCode() const {return g_hash[k % MAXK];}      // the solver chooses the hash function, hence the collision pattern
    uint32 k;
 };
-struct Model {uint32 key[8]; uint32 val[8]; uint32 n;};
-static int MFind(const Model & m, uint32 k) {for (uint32 i=0;i<m.n;i++) if (m.key[i]==k) return (int)i; return -1;}
-static void MPut(Model & m, uint32 k, uint32 v) {const int i = MFind(m,k); if (i>=0) m.val[i]=v; else {m.key[m.n]=k; m.val[m.n]=v; m.n++;}}
-static void MRemove(Model & m, uint32 k) {const int i = MFind(m,k); if (i>=0) {for (uint32 j=(uint32)i+1;j<m.n;j++) {m.key[j-1]=m.key[j]; m.val[j-1]=m.val[j];} m.n--;}}
-static void CheckAll(const Hashtable<Key,uint32> & t, const Model & m)
+
+struct Model {uint32 key[MAXN]; uint32 val[MAXN]; uint32 n;};
+static int  MFind(const Model & m, uint32 k) {for (uint32 i=0;i<MAXN;i++) if ((i<m.n)&&(m.key[i]==k)) return (int)i; return -1;}
+static void MRemoveAt(Model & m, uint32 i) {for (uint32 j=1;j<MAXN;j++) if ((j>i)&&(j<m.n)) {m.key[j-1]=m.key[j]; m.val[j-1]=m.val[j];} m.n--;}
+static void MInsertAt(Model & m, uint32 pos, uint32 k, uint32 v) {if (pos > m.n) pos = m.n; for (uint32 j=MAXN-1;j>0;j--) if ((j>pos)&&(j<=m.n)) {m.key[j]=m.key[j-1]; m.val[j]=m.val[j-1];} m.key[pos]=k; m.val[pos]=v; m.n++;}
+static void MMove(Model & m, uint32 i, uint32 pos) {const uint32 k=m.key[i], v=m.val[i]; MRemoveAt(m,i); MInsertAt(m,pos,k,v);}
+static void MSort(Model & m, bool byValue)   // stable insertion sort
 {
-   CHECK(t.GetNumItems() == m.n, "size");
-   uint32 i = 0;
-   for (ConstHashtableIterator<Key,uint32> it(t); it.HasData(); it++) {CHECK(i < m.n, "forward iteration is not longer than the model"); if (i < m.n) {CHECK(it.GetKey().k == m.key[i], "forward iteration: key order = insertion order"); CHECK(it.GetValue() == m.val[i], "forward iteration: value");} i++;}
-   CHECK(i == m.n, "forward iteration visits every entry");
-   for (uint32 k=0; k<MAXK; k++) {const uint32 * v = t.Get(Key(k)); const int mi = MFind(m,k); CHECK((v != NULL) == (mi >= 0), "Get finds exactly the present keys"); if ((v)&&(mi>=0)) CHECK(*v == m.val[mi], "Get value");}
+   for (uint32 i=1;i<MAXN;i++) if (i<m.n)
+   {
+      uint32 p = i;
+      for (uint32 j=i;j>0;j--) if (p==j) {const bool gt = byValue ? (m.val[j-1] > m.val[j]) : (m.key[j-1] > m.key[j]); if (gt) {uint32 t=m.key[j];m.key[j]=m.key[j-1];m.key[j-1]=t; t=m.val[j];m.val[j]=m.val[j-1];m.val[j-1]=t; p=j-1;}}
+   }
 }
-static uint32 SymKey() {uint32 k = nondet_u8(); ASSUME(k < MAXK); return k;}
+
+static uint32 SymKey() {const uint32 k = nondet_u8(); ASSUME(k < MAXK); return k;}
+static uint32 SymVal() {return nondet_u8()&3;}     // values only get compared and copied; a 2-bit domain gives ties for the value-sorted table
+
+template<class T> struct Kind           {enum {SORT=0};};
+template<> struct Kind<OrderedKeysHashtable<Key,uint32> >   {enum {SORT=1};};
+template<> struct Kind<OrderedValuesHashtable<Key,uint32> > {enum {SORT=2};};
+
+// full comparison of a table with the model
+template<class T> static void CheckAll(const T & t, const Model & m, bool exactOrder)
+{
+   CHECK(t.GetNumItems() == m.n, "size equals the ideal map's");
+   CHECK(t.IsEmpty() == (m.n == 0), "IsEmpty");
+   uint32 i = 0; uint32 seen = 0; uint32 prevVal = 0;
+   for (ConstHashtableIterator<Key,uint32> it(t); it.HasData(); it++)
+   {
+      CHECK(i < m.n, "forward iteration is not longer than the ideal map");
+      if (i < m.n)
+      {
+         if (exactOrder) {CHECK(it.GetKey().k == m.key[i], "forward iteration: key order"); CHECK(it.GetValue() == m.val[i], "forward iteration: value");}
+         else
+         {
+            const int mi = MFind(m, it.GetKey().k); CHECK(mi >= 0, "iteration yields only keys of the ideal map"); if (mi >= 0) {CHECK(it.GetValue() == m.val[mi], "iteration: value"); CHECK((seen&(1u<<mi)) == 0, "iteration yields no key twice"); seen |= (1u<<mi);}
+            if (i > 0) CHECK(prevVal <= it.GetValue(), "value-sorted table iterates in non-decreasing value order");
+            prevVal = it.GetValue();
+         }
+      }
+      i++; ASSUME(i <= MAXN);
+   }
+   CHECK(i == m.n, "forward iteration visits every entry");
+   if (exactOrder)
+   {
+      uint32 j = m.n;
+      for (ConstHashtableIterator<Key,uint32> it(t, HTIT_FLAG_BACKWARDS); it.HasData(); it++) {CHECK(j > 0, "backward iteration is not longer than the ideal map"); if (j > 0) {j--; CHECK(it.GetKey().k == m.key[j], "backward iteration: reverse key order"); CHECK(it.GetValue() == m.val[j], "backward iteration: value");} }
+      CHECK(j == 0, "backward iteration visits every entry");
+   }
+   // a query for an arbitrary key
+   const uint32 k = SymKey(); const int mi = MFind(m,k);
+   const uint32 * v = t.Get(Key(k));
+   CHECK((v != NULL) == (mi >= 0), "Get finds exactly the present keys"); if ((v)&&(mi>=0)) CHECK(*v == m.val[mi], "Get value");
+}
+
+// the other queries, for an arbitrary key and an arbitrary position (run on arbitrary prefix tables by the 'queries' jobs)
+template<class T> static void CheckQueries(const T & t, const Model & m, bool exactOrder)
+{
+   const uint32 k = SymKey(); const int mi = MFind(m,k);
+   CHECK(t.ContainsKey(Key(k)) == (mi >= 0), "ContainsKey");
+   CHECK(t.GetWithDefault(Key(k), 77) == ((mi>=0) ? m.val[mi] : 77u), "GetWithDefault");
+   uint32 gv = 55; CHECK(t.Get(Key(k), gv).IsOK() == (mi >= 0), "Get(key, retValue) status"); if (mi >= 0) CHECK(gv == m.val[mi], "Get(key, retValue) value");
+   const Key * gk = t.GetKey(Key(k)); CHECK((gk != NULL) == (mi >= 0), "GetKey"); if ((gk)&&(mi >= 0)) CHECK(gk->k == k, "GetKey returns the stored key");
+   const uint32 sv = SymVal(); bool has = false; for (uint32 i=0;i<MAXN;i++) if ((i<m.n)&&(m.val[i]==sv)) has = true;
+   CHECK(t.ContainsValue(sv) == has, "ContainsValue");
+   if (exactOrder)
+   {
+      const uint32 pos = nondet_u8(); ASSUME(pos <= MAXN);
+      const Key * ka = t.GetKeyAt(pos); CHECK((ka != NULL) == (pos < m.n), "GetKeyAt is defined exactly for valid positions"); if ((ka)&&(pos < m.n)) CHECK(ka->k == m.key[pos], "GetKeyAt");
+      const uint32 * va = t.GetValueAt(pos); CHECK((va != NULL) == (pos < m.n), "GetValueAt is defined exactly for valid positions"); if ((va)&&(pos < m.n)) CHECK(*va == m.val[pos], "GetValueAt");
+      const Key * fk = t.GetFirstKey(); CHECK((fk != NULL) == (m.n > 0), "GetFirstKey"); if ((fk)&&(m.n>0)) CHECK(fk->k == m.key[0], "GetFirstKey value");
+      const Key * lk = t.GetLastKey();  CHECK((lk != NULL) == (m.n > 0), "GetLastKey");  if ((lk)&&(m.n>0)) CHECK(lk->k == m.key[m.n-1], "GetLastKey value");
+      const uint32 * fv = t.GetFirstValue(); CHECK((fv != NULL) == (m.n > 0), "GetFirstValue"); if ((fv)&&(m.n>0)) CHECK(*fv == m.val[0], "GetFirstValue value");
+      const uint32 * lv = t.GetLastValue(); CHECK((lv != NULL) == (m.n > 0), "GetLastValue"); if ((lv)&&(m.n>0)) CHECK(*lv == m.val[m.n-1], "GetLastValue value");
+      if (mi >= 0) {CHECK(t.IndexOfKey(Key(k)) == mi, "IndexOfKey");} else CHECK(t.IndexOfKey(Key(k)) == -1, "IndexOfKey of an absent key");
+      const Key * kb = t.GetKeyBefore(Key(k)); CHECK((kb != NULL) == (mi > 0), "GetKeyBefore is defined exactly for present keys other than the first"); if ((kb)&&(mi > 0)) CHECK(kb->k == m.key[mi-1], "GetKeyBefore");
+      const Key * kf = t.GetKeyAfter(Key(k)); CHECK((kf != NULL) == ((mi >= 0)&&((uint32)mi+1 < m.n)), "GetKeyAfter is defined exactly for present keys other than the last"); if ((kf)&&(mi >= 0)&&((uint32)mi+1 < m.n)) CHECK(kf->k == m.key[mi+1], "GetKeyAfter");
+      // an iterator started at a key
+      ConstHashtableIterator<Key,uint32> sit(t, Key(k), 0); CHECK(sit.HasData() == (mi >= 0), "an iterator started at a key has data exactly when the key is present");
+      if ((sit.HasData())&&(mi >= 0)) {CHECK(sit.GetKey().k == k, "... and starts there"); sit++; CHECK(sit.HasData() == ((uint32)mi+1 < m.n), "... and continues"); if ((sit.HasData())&&((uint32)mi+1 < m.n)) CHECK(sit.GetKey().k == m.key[mi+1], "... with the next entry");}
+   }
+}
+
+template<class T> static void Run()
+{
+   const uint32 n = ir2c_param_0(), op = ir2c_param_1(), itmode = ir2c_param_2(), initSize = ir2c_param_3(), c5 = ir2c_param_5();
+   const bool exact = (Kind<T>::SORT != 2);
+   for (uint32 i=0;i<MAXK;i++) {g_hash[i] = nondet_u8(); ASSUME(g_hash[i] < 64);}   // only hash % tableSize and hash equality matter to the table; a 6-bit hash keeps the division circuits small
+   T t; Model m; m.n = 0;
+   if (initSize) CHECK(t.EnsureSize(initSize, true).IsOK(), "EnsureSize(allowShrink) succeeds");
+   for (uint32 i=0;i<MAXN;i++) if (i<n)
+   {
+      const uint32 k = SymKey(), v = SymVal(); ASSUME(MFind(m,k) < 0);
+      CHECK(t.Put(Key(k), v).IsOK(), "Put succeeds"); MInsertAt(m, m.n, k, v);
+   }
+   if (Kind<T>::SORT == 1) MSort(m, false);
+   if (Kind<T>::SORT == 2) MSort(m, true);
+
+   // the live iterator
+   Model m0 = m;                        // the order the iterator was started on
+   const bool back = (itmode == 2);
+   HashtableIterator<Key,uint32> it;    // default-constructed iterators refer to nothing
+   uint32 a = 0;
+   if (itmode)
+   {
+      it = HashtableIterator<Key,uint32>(t, back ? HTIT_FLAG_BACKWARDS : 0);
+      a = nondet_u8(); ASSUME(a <= n);
+      for (uint32 i=0;i<MAXN;i++) if (i<a) {CHECK(it.HasData(), "the iterator has data while entries remain"); it++;}
+      CHECK(it.HasData() == (a < n), "the iterator ends after the last entry");
+      if ((a < n)&&(exact)) CHECK(it.GetKey().k == m0.key[back ? (n-1-a) : a], "the iterator follows the table's order");
+      if ((a < n)&&(!exact)) {const uint32 ck = it.GetKey().k; const int ci = MFind(m0, ck); ASSUME(ci >= 0); if ((uint32)ci != (back ? (n-1-a) : a)) MMove(m0, (uint32)ci, back ? (n-1-a) : a);}   // value-sorted: ties make the order ambiguous; adopt the table's
+   }
+
+   // the operation under test
+   const uint32 k = SymKey(), k2 = SymKey(), v = SymVal(); uint32 pos = nondet_u8(); ASSUME(pos <= MAXN+1);
+   const int ki = MFind(m,k), k2i = MFind(m,k2);
+   T other; Model mo; mo.n = 0; bool swapped = false;
+   switch(op)
+   {
+      case 0:  {CHECK(t.Put(Key(k), v).IsOK(), "Put succeeds"); if (ki >= 0) m.val[ki] = v; else MInsertAt(m, m.n, k, v);} break;
+      case 1:  {uint32 rv = 99; const status_t r = t.Remove(Key(k), rv); CHECK(r.IsOK() == (ki >= 0), "Remove succeeds exactly for present keys"); if (ki >= 0) {CHECK(rv == m.val[ki], "Remove returns the removed value"); MRemoveAt(m, (uint32)ki);}} break;
+      case 2:  {CHECK(t.MoveToFront(Key(k)).IsOK() == (ki >= 0), "MoveToFront status"); if (ki >= 0) MMove(m, (uint32)ki, 0);} break;
+      case 3:  {CHECK(t.MoveToBack(Key(k)).IsOK() == (ki >= 0), "MoveToBack status"); if (ki >= 0) MMove(m, (uint32)ki, MAXN);} break;
+      case 4:  {t.Clear(c5 != 0); m.n = 0;} break;
+      case 5:  {const status_t r = t.MoveToBefore(Key(k), Key(k2)); const bool ok = (ki >= 0)&&(k2i >= 0)&&(k != k2); CHECK(r.IsOK() == ok, "MoveToBefore status"); if (ok) MMove(m, (uint32)ki, (uint32)((ki < k2i) ? (k2i-1) : k2i));} break;
+      case 6:  {const status_t r = t.MoveToBehind(Key(k), Key(k2)); const bool ok = (ki >= 0)&&(k2i >= 0)&&(k != k2); CHECK(r.IsOK() == ok, "MoveToBehind status"); if (ok) MMove(m, (uint32)ki, (uint32)((ki < k2i) ? k2i : (k2i+1)));} break;
+      case 7:  {CHECK(t.MoveToPosition(Key(k), pos).IsOK() == (ki >= 0), "MoveToPosition status"); if (ki >= 0) MMove(m, (uint32)ki, pos);} break;
+      case 8:  {CHECK(t.PutAtFront(Key(k), v).IsOK(), "PutAtFront succeeds"); if (ki >= 0) {m.val[ki] = v; MMove(m, (uint32)ki, 0);} else MInsertAt(m, 0, k, v);} break;
+      case 9:  {CHECK(t.PutAtBack(Key(k), v).IsOK(), "PutAtBack succeeds"); if (ki >= 0) {m.val[ki] = v; MMove(m, (uint32)ki, MAXN);} else MInsertAt(m, m.n, k, v);} break;
+      case 10: {CHECK(t.PutBefore(Key(k), Key(k2), v).IsOK(), "PutBefore succeeds");      // as Put(); then, if the other key exists and differs, placed just before it
+                if (ki >= 0) m.val[ki] = v; else MInsertAt(m, m.n, k, v);
+                const int a1 = MFind(m,k), b1 = MFind(m,k2); if ((b1 >= 0)&&(k != k2)) MMove(m, (uint32)a1, (uint32)((a1 < b1) ? (b1-1) : b1));} break;
+      case 11: {CHECK(t.PutBehind(Key(k), Key(k2), v).IsOK(), "PutBehind succeeds");
+                if (ki >= 0) m.val[ki] = v; else MInsertAt(m, m.n, k, v);
+                const int a1 = MFind(m,k), b1 = MFind(m,k2); if ((b1 >= 0)&&(k != k2)) MMove(m, (uint32)a1, (uint32)((a1 < b1) ? b1 : (b1+1)));} break;
+      case 12: {CHECK(t.PutAtPosition(Key(k), pos, v).IsOK(), "PutAtPosition succeeds"); if (ki >= 0) m.val[ki] = v; else MInsertAt(m, m.n, k, v); MMove(m, (uint32)MFind(m,k), pos);} break;
+      case 13: {Key rk; uint32 rv = 99; const status_t r = t.RemoveFirst(rk, rv); CHECK(r.IsOK() == (m.n > 0), "RemoveFirst succeeds exactly on a non-empty table"); if (m.n > 0) {if (exact) CHECK((rk.k == m.key[0])&&(rv == m.val[0]), "RemoveFirst returns the first pair"); const int ri = MFind(m, rk.k); CHECK(ri >= 0, "RemoveFirst returns a present key"); if (ri >= 0) {CHECK(rv == m.val[ri], "RemoveFirst value"); MRemoveAt(m, (uint32)ri);}}} break;
+      case 14: {Key rk; uint32 rv = 99; const status_t r = t.RemoveLast(rk, rv);  CHECK(r.IsOK() == (m.n > 0), "RemoveLast succeeds exactly on a non-empty table");  if (m.n > 0) {if (exact) CHECK((rk.k == m.key[m.n-1])&&(rv == m.val[m.n-1]), "RemoveLast returns the last pair"); const int ri = MFind(m, rk.k); CHECK(ri >= 0, "RemoveLast returns a present key"); if (ri >= 0) {CHECK(rv == m.val[ri], "RemoveLast value"); MRemoveAt(m, (uint32)ri);}}} break;
+      case 15: {t.SortByKey();   MSort(m, false);} break;
+      case 16: {t.SortByValue(); MSort(m, true);} break;
+      case 17: {CHECK(t.EnsureSize(c5).IsOK(), "EnsureSize succeeds"); CHECK(t.GetNumAllocatedItemSlots() >= c5, "EnsureSize allocates");} break;
+      case 18: {CHECK(t.ShrinkToFit().IsOK(), "ShrinkToFit succeeds");} break;
+      case 19: {T c(t); CheckAll(c, m, exact); CHECK(c.IsEqualTo(t, true), "a copy equals its source, order included"); CHECK(c == t, "operator== on a copy");                 // copy construction
+                if (ki >= 0) {(void) c.Remove(Key(k)); CHECK(!(c == t), "operator== sees a removed key");} else {(void) c.Put(Key(k), v); CHECK(!(c == t), "operator== sees an added key");}} break;
+      case 20: {CHECK(other.Put(Key(k), v).IsOK(), "Put"); mo.key[0]=k; mo.val[0]=v; mo.n=1; t.SwapContents(other); Model tmp = m; m = mo; mo = tmp; swapped = true;} break;   // swap with a one-entry table
+      case 21: {uint32 * r = t.GetOrPut(Key(k), v); CHECK(r != NULL, "GetOrPut succeeds"); if (ki < 0) MInsertAt(m, m.n, k, v); if (r) CHECK(*r == m.val[MFind(m,k)], "GetOrPut returns the stored value");} break;
+      case 22: {uint32 * r = t.GetAndMoveToFront(Key(k)); CHECK((r != NULL) == (ki >= 0), "GetAndMoveToFront finds exactly the present keys"); if (ki >= 0) {if (r) CHECK(*r == m.val[ki], "GetAndMoveToFront value"); MMove(m, (uint32)ki, 0);}} break;
+      case 23: {uint32 * r = t.GetAndMoveToBack(Key(k));  CHECK((r != NULL) == (ki >= 0), "GetAndMoveToBack finds exactly the present keys");  if (ki >= 0) {if (r) CHECK(*r == m.val[ki], "GetAndMoveToBack value");  MMove(m, (uint32)ki, MAXN);}} break;
+      case 24: {CHECK(other.Put(Key(k2), 3).IsOK(), "Put"); mo.key[0]=k2; mo.val[0]=3; mo.n=1;                                                                     // MoveToTable
+                const status_t r = t.MoveToTable(Key(k), other); CHECK(r.IsOK() == (ki >= 0), "MoveToTable succeeds exactly for present keys");
+                if (ki >= 0) {const int oi = MFind(mo,k); if (oi >= 0) mo.val[oi] = m.val[ki]; else MInsertAt(mo, mo.n, k, m.val[ki]); MRemoveAt(m, (uint32)ki);}
+                if (Kind<T>::SORT == 1) MSort(mo, false);
+                if (Kind<T>::SORT == 2) MSort(mo, true);
+                CheckAll(other, mo, exact);} break;
+      case 25: {const status_t r = t.PutOrRemove(Key(k), (c5 != 0) ? &v : NULL); if (c5) {CHECK(r.IsOK(), "PutOrRemove(value) succeeds"); if (ki >= 0) m.val[ki] = v; else MInsertAt(m, m.n, k, v);} else {CHECK(r.IsOK() == (ki >= 0), "PutOrRemove(NULL) status"); if (ki >= 0) MRemoveAt(m, (uint32)ki);}} break;
+      case 26: {T * h = new T(t); HashtableIterator<Key,uint32> hit(*h, back ? HTIT_FLAG_BACKWARDS : 0); delete h;                                             // the table dies under an iterator
+                CHECK(hit.HasData() == (n > 0), "an iterator whose table was destroyed keeps its current pair"); if ((n > 0)&&(exact)) CHECK(hit.GetKey().k == m.key[back ? (n-1) : 0], "... namely the pair it was at");
+                hit++; CHECK(!hit.HasData(), "an iterator whose table was destroyed ends at its next step");} break;
+      case 27: {T c; (void) c.Put(Key(k2), 1); c = t; CheckAll(c, m, exact);} break;                                                                         // assignment over a non-empty table
+      case 28: CheckQueries(t, m, exact); break;
+      default: break;
+   }
+   if (Kind<T>::SORT == 1) MSort(m, false);
+   if (Kind<T>::SORT == 2) MSort(m, true);
+   (void) k2i;
+
+   // the rest of the live iterator's traversal
+   if (itmode)
+   {
+      const Model & F = swapped ? mo : m;     // the entries the iterator walks over live in the other table after a swap
+      // did the operation change the relative order of the entries that were present throughout?  (the value-sorted table is treated as reordered: ties make its order ambiguous)
+      bool reordered = !exact; {int last = -1; for (uint32 i=0;i<MAXN;i++) if (i<m0.n) {const uint32 key = m0.key[back ? (m0.n-1-i) : i]; int fi = MFind(F, key); if (fi >= 0) {if (back) fi = (int)F.n-1-fi; if (fi < last) reordered = true; last = fi;}}}
+      if (a < n)
+      {
+         const uint32 ck = m0.key[back ? (n-1-a) : a];
+         CHECK(it.HasData(), "a live iterator keeps its current pair across the operation");
+         if (it.HasData()) {CHECK(it.GetKey().k == ck, "a live iterator's current key is unchanged by the operation"); const int fi = MFind(F, ck); if (fi >= 0) CHECK(it.GetValue() == F.val[fi], "a live iterator shows its entry's current value");}
+      }
+      uint32 seen = 0, expectIdx = a+1;
+      if (it.HasData()) it++;
+      for (uint32 step=0; step<MAXN+2; step++)
+      {
+         if (it.HasData() == false) break;
+         CHECK(step <= MAXN, "the traversal terminates");
+         const uint32 yk = it.GetKey().k; const int fi = MFind(F, yk);
+         CHECK(fi >= 0, "a live iterator never yields a removed entry");
+         if (fi >= 0) {CHECK(it.GetValue() == F.val[fi], "a live iterator yields current values"); CHECK((seen&(1u<<fi)) == 0, "the rest of the traversal yields no entry twice"); seen |= (1u<<fi);}
+         if ((reordered == false)&&(MFind(m0, yk) >= 0))
+         {
+            // not reordered: the entries that were there throughout come in the original order, none skipped, none repeated
+            for (uint32 q=0;q<MAXN;q++) if ((expectIdx < n)&&(MFind(F, m0.key[back ? (n-1-expectIdx) : expectIdx]) < 0)) expectIdx++;
+            CHECK(expectIdx < n, "the iterator does not go back to entries it already passed");
+            if (expectIdx < n) CHECK(yk == m0.key[back ? (n-1-expectIdx) : expectIdx], "the iterator continues with the next entry that still exists");
+            expectIdx++;
+         }
+         it++;
+      }
+      if (reordered == false) {for (uint32 q=0;q<MAXN;q++) if ((expectIdx < n)&&(MFind(F, m0.key[back ? (n-1-expectIdx) : expectIdx]) < 0)) expectIdx++; CHECK(expectIdx >= n, "the iterator skips nothing that was present throughout");}
+   }
+   CheckAll(t, m, exact);
+   verif_observe(t.GetNumItems()); verif_observe(m.n ? m.key[0] : 99u);
+}
+
 extern "C" void harness_ht(void)
 {
-   for (uint32 i=0;i<MAXK;i++) g_hash[i] = nondet_u32();
-   Hashtable<Key,uint32> t; Model m; m.n = 0;
-   const uint32 kinds[4] = {ir2c_param_0(), ir2c_param_1(), ir2c_param_2(), ir2c_param_3()};
-   for (uint32 s=0; s<4; s++)
+   switch(ir2c_param_4())
    {
-      const uint32 k = SymKey(), v = nondet_u32();
-      switch(kinds[s])
-      {
-         case 0: CHECK(t.Put(Key(k), v).IsOK(), "Put succeeds"); MPut(m, k, v); break;
-         case 1: {const bool had = (MFind(m,k) >= 0); CHECK(t.Remove(Key(k)).IsOK() == had, "Remove status"); MRemove(m, k);} break;
-         case 2: {const int i = MFind(m,k); if (i>=0) {CHECK(t.MoveToFront(Key(k)).IsOK(), "MoveToFront"); const uint32 kk=m.key[i], vv=m.val[i]; for (uint32 j=(uint32)i;j>0;j--) {m.key[j]=m.key[j-1]; m.val[j]=m.val[j-1];} m.key[0]=kk; m.val[0]=vv;} else CHECK(t.MoveToFront(Key(k)).IsError(), "MoveToFront of an absent key fails");} break;
-         case 3: {const int i = MFind(m,k); if (i>=0) {CHECK(t.MoveToBack(Key(k)).IsOK(), "MoveToBack"); const uint32 kk=m.key[i], vv=m.val[i]; for (uint32 j=(uint32)i+1;j<m.n;j++) {m.key[j-1]=m.key[j]; m.val[j-1]=m.val[j];} m.key[m.n-1]=kk; m.val[m.n-1]=vv;} else CHECK(t.MoveToBack(Key(k)).IsError(), "MoveToBack of an absent key fails");} break;
-         case 4: t.Clear(); m.n = 0; break;
-         default: break;
-      }
-      if (kinds[s] != 99) CheckAll(t, m);
+      case 1:  Run<OrderedKeysHashtable<Key,uint32> >();   break;
+      case 2:  Run<OrderedValuesHashtable<Key,uint32> >(); break;
+      default: Run<Hashtable<Key,uint32> >();              break;
    }
    VERIF_REACHED();
 }
